@@ -129,6 +129,9 @@ def real_signal(ctx):
         ncalls = rng.randrange(3, 9)
         workers = rng.choice([1, 2, 4])
         k = rng.randrange(0, ncalls)
+        chain = trial % 3 == 0          # a linear chain interrupted early: no later link may start (beyond one per worker)
+        if chain:
+            ncalls, workers, k = 9, rng.choice([1, 2]), rng.choice([1, 2, 3])
         lock = threading.Lock()
         log, state = [], {"n": 0, "sig": None}
 
@@ -152,6 +155,8 @@ def real_signal(ctx):
         calls = []
         for i in range(ncalls):
             args = [rng.choice(calls)] if calls and rng.random() < 0.5 else []
+            if chain:
+                args = calls[-1:]
             calls.append(p.call(mk(i), *args))
         obs = Obs()
         before = set(threading.enumerate())
@@ -172,7 +177,7 @@ def real_signal(ctx):
         sys.settrace(tracer)
         try:
             try:
-                uberjob.run(p, output=calls, max_workers=workers, progress=Progress(lambda: obs))
+                uberjob.run(p, output=calls[-1] if chain else calls, max_workers=workers, progress=Progress(lambda: obs))
                 outcome = "returned"
             except KeyboardInterrupt:
                 outcome = "interrupted"
@@ -182,7 +187,8 @@ def real_signal(ctx):
             outcome = "interrupted-late"
         finally:
             sys.settrace(None)
-        ctx.case(("real-signal", ncalls, workers, k))
+        ctx.case(("real-signal", ncalls, workers, k, chain))
+        ctx.count("real_signal_shape", "chain" if chain else "random")
         with lock:
             snap = list(log)
         case = {"ncalls": ncalls, "workers": workers, "k": k, "outcome": outcome, "log": [(a, b) for a, b, _ in snap],
